@@ -176,6 +176,20 @@ def check(run, ctx):
             run.finding(T10, rec["func"], "splitlines-sliced-by-line", f"{rec['func']}: {rec['expr']} is sliced by the parser's line numbers ({rec['use']}): every form-feed/NEL/U+2028 above the class end shifts the slice, so lines before the class are counted and its last lines are not", rec["loc"])
         else:
             run.ok(T10, rec["func"], f"{rec['expr']}: {rec['use']}", nontrivial=rec["use"] != "no positional use")
+    T11 = run.rule("T11", "the three method counters count the direct members of the class / impl block only (no recursive walk over nested bodies)", floor=3,
+                   decides="the method count is the number of the class's own methods: a fn or def nested inside a method body is not a method")
+    counters = [f for f in repo.funcs_in(f"{PKG}.") if f.name in ("count_methods", "count_impl_methods") and f.parent is None]
+    run.require(len(counters) >= 3, f"only {len(counters)} method counters found in the SRP package")
+    for f in sorted(counters, key=lambda x: x.qual):
+        rec = [n for n in inline.flat_nodes(repo, f) if isinstance(n, ast.Call) and (call_name(n) in ("walk_tree", "walk", "descendants", "iter_descendants") or ast.unparse(n.func) == "ast.walk")]
+        direct = [n for n in inline.flat_nodes(repo, f) if isinstance(n, ast.Attribute) and n.attr in ("children", "named_children", "body")]
+        sym = f.qual.replace("src.linters.srp.", "")
+        if rec:
+            run.finding(T11, sym, f"recursive-count:{norm(rec[0])[:50]}", f"{f.name} collects methods with `{norm(rec[0])[:70]}`, a recursive walk: functions declared inside a method body are counted as methods of the class, so a class on the limit is reported with an inflated count", f"{f.module.rel}:{rec[0].lineno}")
+        elif direct:
+            run.ok(T11, sym, "iterates the direct members only")
+        else:
+            run.undecided(T11, sym, "member iteration not recognised")
     T9 = run.rule("T9", "every class is found: the Python class finder walks the whole tree (classes nested in functions, methods, if/try blocks included)", floor=1)
     for rec in shared.whole_tree_finders(ctx):
         if ".srp." not in rec["func"]:
